@@ -6,6 +6,7 @@ import (
 	"io"
 	"os"
 	"testing"
+	"time"
 
 	"github.com/containerd/stargz-snapshotter/cache"
 	fsreader "github.com/containerd/stargz-snapshotter/fs/reader"
@@ -29,6 +30,7 @@ func TestVerifC04Child(t *testing.T) {
 		t.Fatal(err)
 	}
 	defer db.Close()
+	db.MaxBatchDelay = time.Millisecond // harness setting only: the default 10 ms per batch dominates thousands of tiny layers
 	store := func(sr *io.SectionReader, opts ...metadata.Option) (metadata.Reader, error) {
 		return NewReader(db, sr, opts...)
 	}
@@ -36,10 +38,35 @@ func TestVerifC04Child(t *testing.T) {
 		rec.Run("reader.Cache", func() error {
 			vr, err := fsreader.NewReader(r, cache.NewMemoryCache(), digest.FromString(""))
 			if err != nil {
-				return err
+			return err
+		}
+		return vr.Cache()
+	})
+	// the FUSE read path: fs/reader's file.ReadAt sizes buffers from the chunk table of the metadata store
+	rec.Run("reader.ReadAt", func() error {
+		vr, err := fsreader.NewReader(r, cache.NewMemoryCache(), digest.FromString(""))
+		if err != nil {
+			return err
+		}
+		rd := vr.SkipVerify()
+		var first error
+		for _, id := range metadata.C04RegIDs(r) {
+			f, err := rd.OpenFile(id)
+			if err != nil {
+				if first == nil {
+					first = err
+				}
+				continue
 			}
-			return vr.Cache()
-		})
+			buf := make([]byte, 16)
+			for _, off := range []int64{0, 1, 3} {
+				if _, err := f.ReadAt(buf, off); err != nil && first == nil {
+					first = err
+				}
+			}
+		}
+		return first
+	})
 	})
 	if err != nil {
 		t.Fatal(err)
